@@ -236,6 +236,31 @@ def r08_2(prog, rep):
                         rep.fail(rid, key, f.loc(n.get("line", line)), "year %% 4 is used as `%s`, not as a divisibility test" % show(p)[:60])
     if nleap < 5:
         rep.broken_("rule=R08.2 expected >=5 leap predicates, found %d" % nleap)
+    # sibling agreement of the leap rule: every function that tests a year for divisibility uses the same set of moduli
+    # (the code base supports 1901..2099 and uses y % 4 throughout; a lone `% 100` without `% 400` makes 2000 a common year)
+    moduli = {}
+    for f in prog.all_fns():
+        if not f.cfg or f.file not in ("instant.c", "evrrul.c", "scale.c", "echsd.c", "tzob.c", "dt-strpf.c"):
+            continue
+        for b, i, x, line in f.cfg.all_elems():
+            for n in walk(f.cfg.resolve(x)):
+                if n.get("k") == "bin" and n["op"] == "%" and int_value(n["r"]) in (4, 100, 400) and \
+                        ("y" in lv(n["l"]).split(".")[-1] or "year" in lv(n["l"])):
+                    moduli.setdefault(f.name, set()).add(int_value(n["r"]))
+    kinds = {}
+    for fn_, ms in moduli.items():
+        kinds.setdefault(tuple(sorted(ms)), []).append(fn_)
+    if len(kinds) == 1:
+        rep.ok(rid, "leap/one-rule", "src/instant.c", "all %d functions with a leap test divide the year by %s" % (len(moduli), list(kinds)[0]))
+    else:
+        major = max(kinds.items(), key=lambda kv: len(kv[1]))
+        for ms, fns in kinds.items():
+            if ms == major[0]:
+                continue
+            for fn_ in fns:
+                rep.fail(rid, "leap/one-rule/%s" % fn_, prog.fn(fn_).loc(),
+                         "%s tests the year with moduli %s while the %d sibling leap tests use %s: the calendar helpers disagree about which years are "
+                         "leap (e.g. a `%% 100` test without `%% 400` makes 2000 a common year for this function only)" % (fn_, list(ms), len(major[1]), list(major[0])))
     # epoch constant of the daemon
     it = prog.fn("instant_to_tstamp", "echsd.c")
     consts = []
@@ -408,6 +433,41 @@ def r08_5(prog, rep):
                              "the month counter %s wraps (`%s`) without the year being adjusted in the same block; every other wrap site in the calendar code carries the year" % (mt, show(nn)))
     if n < 12:
         rep.broken_("rule=R08.5 expected >=12 month-wrap sites, found %d" % n)
+    # modular reduction of a 1-based month: `m %= 12` is correct only between `m--` and `m++` (else December becomes month 0 and
+    # the year carry is one too many); the expression form `(m - 1) % 12 + 1` carries its own shift
+    nmod = 0
+    for f in prog.all_fns():
+        if not f.cfg or f.file not in ("instant.c", "evrrul.c", "scale.c", "tzob.c", "echsd.c"):
+            continue
+        cfg = f.cfg
+        for b, blk in cfg.blocks.items():
+            steps = []   # (index, var, +1/-1/'mod')
+            for i, e in enumerate(blk.elems):
+                x = e["x"]
+                if not isinstance(x, dict):
+                    continue
+                for l, kind, nn in writes(x):
+                    from ..facts import step_of
+                    st = step_of(kind, nn)
+                    if st is not None:
+                        steps.append((i, lv(l), st, nn))
+                    elif nn.get("k") == "bin" and nn["op"] == "%=" and int_value(strip_casts(nn["r"])) == 12:
+                        steps.append((i, lv(l), "mod", nn))
+            for i, v, st, nn in steps:
+                if st != "mod":
+                    continue
+                nmod += 1
+                key = "%s/month-mod %s#%d" % (f.name, v, nmod)
+                before = any(j < i and w == v and s_ == -1 for j, w, s_, _ in steps)
+                after = any(j > i and w == v and s_ == 1 for j, w, s_, _ in steps)
+                if before and after:
+                    rep.ok(rid, key, f.loc(nn.get("line")), "%s %%= 12 is bracketed by %s-- and %s++ (reduction on the 0-based month)" % (v, v, v))
+                else:
+                    rep.fail(rid, key, f.loc(nn.get("line")),
+                             "the 1-based month %s is reduced with `%s %%= 12` without the %s-- / %s++ bracket its sibling sites use: a sum that is a "
+                             "multiple of 12 becomes month 0 and carries one year too many" % (v, v, v, v))
+    if nmod < 2:
+        rep.broken_("rule=R08.5 expected >=2 modular month reductions, found %d" % nmod)
 
 
 def run(prog, rep, tier, snap):
